@@ -72,19 +72,48 @@ def ppInner (numLeaves : U64) (totalRows row : U8) : Nat → Nat → PPSt → PP
           ppInner numLeaves totalRows row fuel (i+1)
             { targets := s.targets.set i par, next := s.next ++ [par], proofs := s.proofs ++ [sibling target] }
 
-/-- outer `for row` loop -/
+/-- `slices.Compact` on `[]uint64`, the part after the first element: an element equal to the
+last element kept (`prev`) is dropped -/
+def compactAux (prev : U64) : List U64 → List U64
+  | [] => []
+  | x :: xs => if x == prev then compactAux prev xs else x :: compactAux x xs
+
+/-- `slices.Compact(s)`: every run of consecutive equal elements is replaced by its first
+element -/
+def compactU64 : List U64 → List U64
+  | [] => []
+  | x :: xs => x :: compactAux x xs
+
+/-- outer `for row` loop: after the row's scan the target list is sorted and compacted
+(`slices.Sort(targets); targets = slices.Compact(targets)`) -/
 def ppOuter (numLeaves : U64) (totalRows : U8) : Nat → U8 → PPSt → PPSt
   | 0, _, s => s
   | fuel+1, row, s =>
     if row > totalRows then s
     else
       let s := ppInner numLeaves totalRows row (s.targets.length + 1) 0 s
-      ppOuter numLeaves totalRows fuel (row + 1) { s with targets := sortU64 s.targets }
+      ppOuter numLeaves totalRows fuel (row + 1) { s with targets := compactU64 (sortU64 s.targets) }
 
 /-- `ProofPositions(targets, numLeaves, totalRows)`: (proof positions, computable positions);
 the targets must be sorted -/
 def ProofPositions (targets : List U64) (numLeaves : U64) (totalRows : U8) : List U64 × List U64 :=
   let s := ppOuter numLeaves totalRows (totalRows.toNat + 1) 0#8 { targets := targets, next := [], proofs := [] }
+  (s.proofs, s.next)
+
+/-- the outer loop of `ProofPositions` BEFORE the repair of finding `C16.proofpositions.nested`
+(only `slices.Sort(targets)` after each row, no `slices.Compact`); kept for the theorem that
+records the finding (`Props.C16.proofPositions_nested_fails`) -/
+def ppOuterOld (numLeaves : U64) (totalRows : U8) : Nat → U8 → PPSt → PPSt
+  | 0, _, s => s
+  | fuel+1, row, s =>
+    if row > totalRows then s
+    else
+      let s := ppInner numLeaves totalRows row (s.targets.length + 1) 0 s
+      ppOuterOld numLeaves totalRows fuel (row + 1) { s with targets := sortU64 s.targets }
+
+/-- `ProofPositions` as it was before the repair (no de-duplication of the per-row target list) -/
+def ProofPositionsOld (targets : List U64) (numLeaves : U64) (totalRows : U8) : List U64 × List U64 :=
+  let s := ppOuterOld numLeaves totalRows (totalRows.toNat + 1) 0#8 { targets := targets, next := [], proofs := [] }
   (s.proofs, s.next)
 
 /-- `proofPosition` (single target) -/
